@@ -505,8 +505,78 @@ func genSpec(seed uint64, cold bool, opOnly bool, tier string) *RunSpec {
 	g.noXR = r.chance(4)
 	symmetric := cold || r.chance(5)
 	s.PreRef = !cold && r.chance(2)
+	soak := !cold && r.chance(12)
 
-	if symmetric {
+	if soak {
+		// long call histories: few objects of one or two kinds, hundreds of calls of the same operations,
+		// every result retained (a recycled buffer, a wrapped counter or a full cache shows only late)
+		s.Mode = "soak"
+		if n > 4 {
+			n = 2 + r.intn(3)
+			s.Tasks = make([][]Op, n)
+			g.n = n
+			g.inbox = make([][]inboxEntry, n)
+			g.nextIx = make([]int, n)
+		}
+		calls := 120 + r.intn(280)
+		if tier == "thorough" {
+			calls = 300 + r.intn(1500)
+		}
+		g.maxOps = calls + 50
+		k1, k2 := g.pickKind(), g.pickKind()
+		if r.chance(2) {
+			k2 = k1
+		}
+		if k1 == kCompound || k1 == kXR {
+			k1 = r.intn(kXR)
+		}
+		shared := g.newObj(k1, false, true)
+		seedA, seedB := r.u64(), r.u64()
+		for t := 0; t < n; t++ {
+			a := g.newObjSeed(k1, seedA, false, false)
+			b := g.newObjSeed(k2, seedB, false, false)
+			if t%2 == 1 {
+				a = g.newObj(k1, false, false) // a different value of the same kind
+			}
+			var lastBytes int = -1
+			for c := 0; c < calls; c++ {
+				o := a
+				if r.chance(4) {
+					o = b
+				}
+				switch x := r.intn(16); {
+				case x < 8:
+					bs := g.newSlot()
+					g.emit(t, Op{K: opMarshal, A: o, B: bs})
+					lastBytes = bs
+				case x < 10:
+					g.emit(t, Op{K: opDSSRC, A: o, B: -1})
+				case x < 11:
+					g.emit(t, Op{K: opSize, A: o, B: -1})
+				case x < 12:
+					if !g.noFmt {
+						g.emit(t, Op{K: opString, A: o, B: -1})
+					} else {
+						g.emit(t, Op{K: opSize, A: o, B: -1})
+					}
+				case x < 14:
+					bs := g.newSlot()
+					g.emit(t, Op{K: opMarshalSafe, A: shared, B: bs})
+				case x < 15:
+					if lastBytes >= 0 {
+						p := g.newSlot()
+						g.emit(t, Op{K: opUnmTyped, A: lastBytes, B: p, N: -1})
+					}
+				default:
+					if r.chance(8) {
+						g.emit(t, Op{K: opMutate, A: o, B: -1, Seed: r.u64()})
+					} else {
+						g.emit(t, Op{K: opDSSRC, A: shared, B: -1})
+					}
+				}
+			}
+		}
+	} else if symmetric {
 		s.Mode = "symmetric"
 		// shared objects + per-task equal-valued private objects; every task runs the same list
 		ns := 1 + r.intn(4)
@@ -631,6 +701,10 @@ func genSpec(seed uint64, cold bool, opOnly bool, tier string) *RunSpec {
 	if est < 64 {
 		est = 64
 	}
-	s.Sched = genSchedConfig(r, n, est, opOnly, tier)
+	s.Sched = genSchedConfig(r, g.n, est, opOnly, tier)
+	if s.Mode == "soak" && !opOnly {
+		s.Sched.Gran = []int{granOp, granOp, granFunc, granStmt}[r.intn(4)]
+		s.Sched.StepCap = 600000
+	}
 	return s
 }
